@@ -1,5 +1,6 @@
 SPECIFICATION TraceSpec
 CONSTANTS
   Tier = "full"
+  EnvDefects = {}
 INVARIANT Report
 CHECK_DEADLOCK FALSE
